@@ -1,15 +1,20 @@
-"""--parse-only: a name imported from a sibling and listed in __all__ is not re-exported by the package stub.
+"""--parse-only: an imported module listed in __all__ is not re-exported by the stub (the import is dropped).
 
 Exit status 1 = defect present, 0 = absent, 2 = inconclusive (preconditions of the input failed).
-Mechanism keys: stubtest:parse-only:imported-name-listed-in-__all__:is not present in stub, stubtest:parse-only:__all__:is not present in stub"""
+Mechanism keys:
+  stubtest:parse-only:imported-name-listed-in-__all__:is not present in stub
+"""
 import os
 import sys
 
 sys.path.insert(0, os.path.dirname(os.path.abspath(__file__)))
 from _c19repro import run
 
-FILES = {'c19pkg/__init__.py': "from .core import Thing\n\n__all__ = ['Thing']\n",
- 'c19pkg/core.py': 'class Thing:\n    pass\n'}
-EXPECT = ['stubtest:parse-only:imported-name-listed-in-__all__:is not present in stub',
- 'stubtest:parse-only:__all__:is not present in stub']
+FILES = '''import re
+
+__all__ = ['re', 'x']
+
+x: int = 1
+'''
+EXPECT = ['stubtest:parse-only:imported-name-listed-in-__all__:is not present in stub']
 run(FILES, 'po', EXPECT, what=__doc__.splitlines()[0])
